@@ -265,6 +265,10 @@ func learnFromBranch(env string, c ssa.Value, taken bool, depth int) string {
 	switch x := c.(type) {
 	case *ssa.UnOp:
 		if x.Op == token.NOT {
+			// the negation itself may be what a later phi carries (`c := !f(); if c {…}; if c {…}`)
+			if worthRemembering(x) {
+				env = envSet(env, x, taken, true)
+			}
 			return learnFromBranch(env, x.X, !taken, depth+1)
 		}
 	case *ssa.BinOp:
